@@ -23,7 +23,7 @@ RULE = ("seeded bench histories: gv reconfigurations, then PD bundles (input fie
         "bundle = zero + one-hot(k) + impulse(k) + const + same-seed real twins plus phase/unitary/scaling twins, with "
         "rng_reseed / freeze faults and invalid-argument calls in between; distinct = (include_noise, n_pol, noise "
         "present, fs decade, BW/fs class, field kind) signatures in runs with >=3 successful bundles")
-WALL = {"quick": 120, "thorough": 300, "replay": 120}
+WALL = {"quick": 300, "thorough": 900, "replay": 600}
 BLOCK = {"quick": 100000, "thorough": 4096}
 SELFTEST = {"quick": 16, "thorough": 100}
 COMPONENTS_REAL = ["opticomlib.devices.PD", "opticomlib.devices.LPF", "opticomlib.typing.optical_signal/"
